@@ -357,6 +357,9 @@ def rewrite_targets(tier, rng):
         "roll(x,3)[2:7]": (lambda x: da.roll(x, 3)[2:7], lambda a: np.roll(a, 3)[2:7]),
         "map_overlap(x)": (lambda x: x.map_overlap(lambda b: b * 2, depth=1, boundary="reflect"), lambda a: a * 2),
         "diff(x)[1:5]": (lambda x: da.diff(x)[1:5], lambda a: np.diff(a)[1:5]),
+        # a take pushed through a broadcast changes the extent of the axis it acts on
+        "broadcast_to(x,(3,12))[:, [5,0,3]]": (lambda x: da.broadcast_to(x, (3, 12))[:, [5, 0, 3]], lambda a: np.broadcast_to(a, (3, 12))[:, [5, 0, 3]]),
+        "broadcast_to(x,(3,12))[:, [2]*14]": (lambda x: da.broadcast_to(x, (3, 12))[:, [2] * 14], lambda a: np.broadcast_to(a, (3, 12))[:, [2] * 14]),
         # lazy (delayed) values handed to a blockwise function above an elemwise op: blockwise fusion must still
         # deliver the computed value, whether the delayed object is a keyword, or sits inside a list / dict argument
         "map_blocks(f, x+1, off=delayed)": (lambda x: da.map_blocks(_add_kw, x + 1, off=_delayed_ten(), dtype="f8"), lambda a: a + 11),
